@@ -1401,3 +1401,103 @@ class StrandSortByValue(EnumContract):
 
 
 REGISTRY.append(StrandSortByValue())
+
+
+# =======================================================================================
+# C01: numeric arrays (the sub-variables axis arrives last in the data and becomes the rows)
+
+
+def gen_numarr_case(rnd):
+    grouped = rnd.random() < 0.75
+    d = gen_dim(rnd, "CAT", "g") if grouped else None
+    if d:
+        d.pop("doc_order", None)
+    k = rnd.choice([1, 2, 3])
+    rs = []
+    for _ in range(rnd.choice([0, 4, 9, 18])):
+        vals = [None if rnd.random() < 0.25 else rnd.choice([0, 1, 2.5, 4, 10, -3]) for _ in range(k)]
+        rs.append(dict(a=[rnd.randrange(len(d["cats"]))] if d else [], v=vals))
+    return dict(dim=d, k=k, rs=rs, measure=rnd.choice(["mean", "sum"]))
+
+
+def numarr_response(case):
+    d, k, rs, measure = case["dim"], case["k"], case["rs"], case["measure"]
+    ncat = len(d["cats"]) if d else 1
+    n = [[0] * k for _ in range(ncat)]
+    tot = [[0.0] * k for _ in range(ncat)]
+    cnt = [0] * ncat
+    for r in rs:
+        c = r["a"][0] if d else 0
+        cnt[c] += 1
+        for i, v in enumerate(r["v"]):
+            if v is not None:
+                n[c][i] += 1
+                tot[c][i] += v
+    if measure == "mean":
+        data = [(tot[c][i] / n[c][i]) if n[c][i] else {"?": -8} for c in range(ncat) for i in range(k)]
+    else:
+        data = [tot[c][i] if n[c][i] else {"?": -8} for c in range(ncat) for i in range(k)]
+    subs = ["%04d" % i for i in range(k)]
+    refs = {"alias": "arr", "name": "Arr", "subreferences": [{"alias": "item%d" % i, "name": "Item %d" % i} for i in range(k)]}
+    meta = {"references": refs, "derived": True, "type": {"class": "numeric", "subvariables": subs}}
+    return {"result": {
+        "dimensions": dim_json(d) if d else [],
+        "measures": {measure: {"data": data, "n_missing": 0, "metadata": meta},
+                     "valid_count_unweighted": {"data": [n[c][i] for c in range(ncat) for i in range(k)], "n_missing": 0, "metadata": meta}},
+        "counts": cnt, "n": len(rs), "missing": 0,
+    }}
+
+
+class NumericArrayEndToEnd(EnumContract):
+    name = "e2e:numeric-array cube (means / sums / valid counts) vs respondents"
+    props = ("C01",)
+    bound = ("numeric arrays of <= 3 items, ungrouped or grouped by a CAT variable of <= 4 categories (missing ones "
+             "anywhere), <= 18 respondents with item-level missing answers, mean or sum measure; seeded sample")
+    clauses = ("numarr-values", "numarr-valid-counts", "numarr-labels", "numarr-exception")
+
+    def cases(self, cfg, seed, thorough):
+        rnd = random.Random(9900 + seed)
+        for _ in range(2000 if thorough else 250):
+            yield gen_numarr_case(rnd)
+
+    def check_case(self, case, cfg):
+        import warnings
+        from cr.cube.cube import Cube
+
+        warnings.simplefilter("ignore")
+        d, k, rs, measure = case["dim"], case["k"], case["rs"], case["measure"]
+        bad = set()
+        try:
+            p = Cube(numarr_response(case)).partitions[0]
+            V = valid_elems(d) if d else [0]
+            if not V:
+                return []
+
+            def cell(i, j, what):
+                vals = [r["v"][i] for r in rs if (not d or r["a"][0] == j) and r["v"][i] is not None]
+                if what == "n":
+                    return len(vals)
+                if not vals:
+                    return float("nan")
+                return sum(vals) / len(vals) if measure == "mean" else sum(vals)
+
+            exp = [[cell(i, j, "v") for j in V] for i in range(k)]
+            exp_n = [[cell(i, j, "n") for j in V] for i in range(k)]
+            got = p.means if measure == "mean" else p.sums
+            got_n = p.unweighted_counts
+            if not d:
+                exp, exp_n = [row[0] for row in exp], [row[0] for row in exp_n]
+            if not close(got, exp):
+                bad.add("numarr-values")
+            if not close(got_n, exp_n):
+                bad.add("numarr-valid-counts")
+            if list(p.row_labels) != ["Item %d" % i for i in range(k)]:
+                bad.add("numarr-labels")
+            if d and list(p.column_labels) != ["%s%d" % (d["name"], d["cats"][j]["id"]) for j in V]:
+                bad.add("numarr-labels")
+        except Exception as e:
+            bad.add("numarr-exception:%s" % type(e).__name__)
+        return sorted(bad)
+
+
+REGISTRY.append(NumericArrayEndToEnd())
